@@ -100,7 +100,7 @@ def run(tier, seed):
     cov = {"states": r.distinct, "transitions": r.generated, "traces_validated_against_impl": replayed,
            "exhaustive": True, "tables": len(tabs), "operations": sum(t["nsymop"] for t in tabs),
            "dictionary_keys": len(dic), "tlc_wall_s": round(r.wall, 1),
-           "rule": "one behaviour per request: 237 tables (13 named laws each), 460 number/setting pairs, every key x 6 spellings"}
+           "rule": "one behaviour per request: 237 tables (15 named laws each), 460 number/setting pairs, every key x 6 spellings"}
     if tier == "thorough":
         cov["action_coverage"] = {k: list(val) for k, val in r.coverage.items()}
         never = [a for a in ("DoNormalise", "DoDict", "DoSuffix", "DoInstantiate", "DoLaws")
